@@ -545,6 +545,35 @@ def r04_8(ctx, rep):
         raise AnalysisError("R04.8", "fewer than 2 enter/exit state pairs found in ASTListener")
 
 
+@SPEC.rule(
+    "R04.9",
+    "flag/token agreement: every `<node>.<flag> = <ctx...>.<TOKEN>() is not None` stores the presence of the keyword of "
+    "the same name (encapsulated, partial, final, initial, redeclare ...)",
+)
+def r04_9(ctx, rep):
+    R = "R04.9"
+    gp, rules, gctx, ms, generic = _facts(ctx, R)
+    n = 0
+    for name, fn in sorted(ms.items()):
+        for node in walk_local(fn):
+            pairs = []
+            if isinstance(node, ast.Assign) and isinstance(node.targets[0], ast.Attribute):
+                pairs.append((node.targets[0].attr, node.value))
+            if isinstance(node, ast.Call):
+                for k in node.keywords:
+                    if k.arg:
+                        pairs.append((k.arg, k.value))
+            for flag, v in pairs:
+                if isinstance(v, ast.Compare) and isinstance(v.ops[0], ast.IsNot) and isinstance(v.comparators[0], ast.Constant) and v.comparators[0].value is None \
+                        and isinstance(v.left, ast.Call) and isinstance(v.left.func, ast.Attribute) and v.left.func.attr.isupper():
+                    n += 1
+                    tok = v.left.func.attr
+                    rep.ob(R, "%s:%s.%s" % (PARSER, L, name), "%s = %s() is not None" % (flag, tok), flag == tok.lower(),
+                           "attribute `%s` is set from the presence of keyword %s" % (flag, tok))
+    if n < 5:
+        raise AnalysisError(R, "fewer than 5 keyword flags found")
+
+
 # -- seeded variants ---------------------------------------------------------
 from ._mut import delete_stmt_where, replace_in_func  # noqa: E402
 
@@ -634,3 +663,16 @@ def _m_vis(mod):
         return False
 
     return mod if replace_in_func(mod, "ASTListener.exitComposition", edit) else None
+
+
+@SPEC.mutant("partial set from ENCAPSULATED", PARSER, "R04.9", "partial")
+def _m_flag(mod):
+    def edit(fn):
+        for n in ast.walk(fn):
+            if isinstance(n, ast.Attribute) and n.attr == "PARTIAL":
+                n.attr = "ENCAPSULATED"
+                n.value = ast.Name(id="ctx", ctx=ast.Load())
+                return True
+        return False
+
+    return mod if replace_in_func(mod, "ASTListener.enterClass_definition", edit) else None
